@@ -17,13 +17,13 @@ SPEC = {
         {'pkg': 'execute', 'src': 'harness/execute/c16_test.go', 'test': 'TestVerif_C16_exec_gates', 'fakes': True,
          'sinks': {'C16_gate_exec': 'gate_judge'}, 'n': {'quick': 300, 'thorough': 10000}},
         {'pkg': 'execute', 'src': ['harness/execute/c16_test.go', 'harness/execute/c16r_test.go'], 'test': 'TestVerif_C16_exec_roles', 'fakes': True,
-         'sinks': {'C16_gate_exec_roles': 'gate_judge'}, 'n': {'quick': 40, 'thorough': 600}},
+         'sinks': {'C16_gate_exec_roles': 'gate_judge', 'C16_rep_exec_roles': 'rep_judge'}, 'n': {'quick': 40, 'thorough': 600}},
     ],
     'rule': 'sched: oracle-id sets of size 0..31 (uint8 ids) with writer pattern classes none/one/some/all/err/big, '
             'each evaluated in two random orders; rep_*: Plugin.Reports of commit/execute on 24 fresh instances per DON '
             '(sizes 2..10, 4, 31; writer subsets; failing home chain; empty outcomes), distinct answers collected; '
             'gate_exec_roles: four long-lived execute plugins on the REAL home-chain poller (3 ms polling) over a scripted CCIPHome whose role map (readers of the destination and of two sources) '
-            'and candidate digest are re-drawn between rounds; ShouldTransmitAcceptedReport of every oracle after every change; '
+            'and candidate digest are re-drawn between rounds; ShouldTransmitAcceptedReport of every oracle after every change, and Plugin.Reports of all four long-lived oracles for one outcome (one schedule, that of the role map fetched last); '
             'gate_*: accept/transmit callbacks over digest combinations (equal, zero, different), reader/codec failures, '
             'empty and non-empty reports, curse answers. non-trivial = >=2 oracles and >=1 destination writer (sched/rep), '
             'every gate case; distinct by full input',
